@@ -9,6 +9,7 @@ use mos_core::io::{to_listing, to_vice_symbols, Bank, BinaryWriter};
 use mos_core::parser;
 use mos_core::parser::source::FileSystemParsingSource;
 use serde::Deserialize;
+use std::collections::{HashMap, HashSet};
 use std::io::Write;
 use std::path::{Path, PathBuf};
 use strum::EnumString;
@@ -134,32 +135,41 @@ pub fn build_command(root: &Path, cfg: &Config) -> MosResult<()> {
     if cfg.build.listing {
         let listings = to_listing(&generated_code, cfg.formatting.listing.num_bytes_per_line)?;
 
-        // Source files in different directories may have the same name. Their listings would overwrite each other,
-        // so in that case the directory becomes part of the name of the listing.
+        // Source files in different directories, or with different extensions, may have the same name. Their listings
+        // would overwrite each other, so in that case the directory and the extension become part of the name of the
+        // listing. (And should even that not tell them apart, e.g. 'lib/util.asm' and 'lib_util.asm', a number does.)
         let stem = |path: &Path| path.file_stem().unwrap().to_string_lossy().to_string();
         let mut sources: Vec<PathBuf> = listings.keys().cloned().collect();
         sources.sort();
-        for (source_path, contents) in listings.iter().map(|(k, v)| (k.clone(), v.clone())) {
+        let mut listing_paths: HashMap<PathBuf, String> = HashMap::new();
+        let mut taken: HashSet<String> = HashSet::new();
+        for source_path in &sources {
             let is_unique = sources
                 .iter()
-                .filter(|other| stem(other.as_path()) == stem(&source_path))
+                .filter(|other| stem(other.as_path()) == stem(source_path))
                 .count()
                 == 1;
-            let listing_path = if is_unique {
-                format!("{}.lst", stem(&source_path))
+            let name = if is_unique {
+                stem(source_path)
             } else {
-                let relative = source_path
-                    .strip_prefix(root)
-                    .unwrap_or(&source_path)
-                    .with_extension("");
-                let name = relative
+                let relative = source_path.strip_prefix(root).unwrap_or(source_path);
+                relative
                     .components()
                     .map(|c| c.as_os_str().to_string_lossy().to_string())
                     .filter(|c| c != "/" && c != ".")
                     .collect::<Vec<_>>()
-                    .join("_");
-                format!("{}.lst", name)
+                    .join("_")
             };
+            let mut listing_path = format!("{}.lst", name);
+            let mut n = 2;
+            while !taken.insert(listing_path.clone()) {
+                listing_path = format!("{}_{}.lst", name, n);
+                n += 1;
+            }
+            listing_paths.insert(source_path.clone(), listing_path);
+        }
+        for (source_path, contents) in listings.iter().map(|(k, v)| (k.clone(), v.clone())) {
+            let listing_path = &listing_paths[&source_path];
             let mut out = fs::File::create(target_dir.join(listing_path)).map_err(map_io_error)?;
             out.write_all(contents.as_bytes()).map_err(map_io_error)?;
         }
